@@ -1511,9 +1511,10 @@ def or5(F, R):
                     continue
                 cnt = r[2][1]
                 pat = ("agg", "BlockCount", [("call", "From::from", [("place", ("arg", 1), ("*", "blocks_per_cluster"))])])
+                pat2 = ("agg", "BlockCount", [("cast", "_", ("place", ("arg", 1), ("*", "blocks_per_cluster")))])      # `as u32`: the same widening
                 c2 = strip_refs(cnt)
                 cands = [c2] if c2[0] != "var" else var_def_terms(fn, c2[1])
-                if not all(tmatch(c, pat) is not None for c in cands):
+                if not all(tmatch(c, pat) is not None or tmatch(c, pat2) is not None for c in cands):
                     problems.append("range length is %s, expected BlockCount(blocks_per_cluster)" % [tstr(c) for c in cands])
                 st = strip_refs(r[2][0])
                 sts = [st] if st[0] != "var" else var_def_terms(fn, st[1])
